@@ -1,3 +1,5 @@
+import os
+
 """C15 — killing restore, empty or rm at any instant never strands a payload without info."""
 from ..core import Check, audit
 from ..model import cmd_argv, snap_to_state, world_from_state
@@ -6,8 +8,34 @@ from ..runner import run_tasks, task_rng
 from ..sandbox import run_world
 from ..worldgen import gen_trash_world
 
-CFG = {"cmds": ["restore", "empty", "rm"], "oracles": ("crash15", "effects"), "violations": ("crash15",), "profile": "clean",
-       "states": True}
+def tweak(world, rng):
+    """restores: select everything that is offered, so that directory payloads, symlinks and cross-volume
+    destinations (home trash on its own volume, original location elsewhere) are all exercised"""
+    if world["cmd"] != "restore" or rng.random() < 0.3:
+        return world
+    nodes = {n["p"]: n for n in world["nodes"]}
+    k = 0
+    for e in world["meta"]["entries"]:
+        t = e["tdir"]
+        parent = os.path.dirname(t)
+        if os.path.basename(parent) == b".Trash":
+            n = nodes.get(parent)
+            ok = n is not None and n["k"] == "d" and n.get("mode", 0) & 0o1000
+        elif b"real-trash" in t:
+            ok = False
+        else:
+            ok = True
+        k += 1 if ok else 0
+    world["opts"]["path"] = b"/"
+    world["opts"].pop("trashDir", None)
+    if k >= 1:
+        world["stdin"] = b"0-%d\n" % (k - 1)
+    world["argv"] = cmd_argv(world)
+    return world
+
+
+CFG = {"cmds": ["restore", "restore", "empty", "rm"], "oracles": ("crash15", "effects"), "violations": ("crash15",), "profile": "clean",
+       "states": True, "tweak": tweak}
 LEVEL_NOTE = ("theorems: while one entry is purged the info file is untouched as long as the payload root exists (every "
               "oracle); re-running the purge completes it; a same-volume restore keeps the entry complete in the trash or "
               "at its destination in every intermediate state. Cross-volume restores (copy + delete) are covered by the "
